@@ -313,6 +313,45 @@ func FormatFloat(f float64) string {
 	return s
 }
 
+// MultiLinePct: percentage of array / map literals in call and return
+// bindings printed one element per line (so that comments can precede
+// collection elements).  Decided by a counter so that printing is
+// deterministic.
+var MultiLinePct = 0
+var mlCounter uint32
+
+func mlChoice() bool {
+	if MultiLinePct <= 0 {
+		return false
+	}
+	mlCounter = mlCounter*1664525 + 1013904223
+	return int(mlCounter>>16)%100 < MultiLinePct
+}
+
+// writeIndented prints collection literals over several lines.
+func (e *Exp) writeIndented(b *strings.Builder, indent string) {
+	if (e.Kind == EArray || e.Kind == EMap || e.Kind == EStruct) && len(e.Elems) > 0 && mlChoice() {
+		open, close := "[", "]"
+		if e.Kind != EArray {
+			open, close = "{", "}"
+		}
+		b.WriteString(open + "\n")
+		for i, x := range e.Elems {
+			b.WriteString(indent + "    ")
+			if e.Kind == EMap {
+				b.WriteString(QuoteString(e.Keys[i]) + ": ")
+			} else if e.Kind == EStruct {
+				b.WriteString(e.Keys[i] + ": ")
+			}
+			x.writeIndented(b, indent+"    ")
+			b.WriteString(",\n")
+		}
+		b.WriteString(indent + close)
+		return
+	}
+	e.write(b)
+}
+
 func (e *Exp) write(b *strings.Builder) {
 	switch e.Kind {
 	case ENull:
@@ -479,7 +518,7 @@ func (c *Call) Print(b *strings.Builder, indent string) {
 		if bd.Split {
 			b.WriteString("split ")
 		}
-		bd.Exp.write(b)
+		bd.Exp.writeIndented(b, indent+"    ")
 		b.WriteString(",\n")
 	}
 	b.WriteString(indent + ")")
@@ -530,7 +569,7 @@ func (p *Pipeline) Print(b *strings.Builder) {
 	}
 	for _, bd := range p.Ret {
 		b.WriteString("        " + bd.Id + strings.Repeat(" ", w-len(bd.Id)) + " = ")
-		bd.Exp.write(b)
+		bd.Exp.writeIndented(b, "        ")
 		b.WriteString(",\n")
 	}
 	b.WriteString("    )\n")
